@@ -67,8 +67,8 @@ for e in ENTRIES:
         e['all'] = True
 
 ENTRIES += [
-    N('robots-hop-inspected', "            while not session.done():\n                wpull.util.truncate_file(file.name)\n",
-      "            while not session.done():\n                if session.next_request().url_info.hostname != url_info.hostname:\n                    break\n\n                wpull.util.truncate_file(file.name)\n", 'wpull/protocol/http/robots.py'),
+    N('robots-hop-inspected', "                while not session.done():\n                    wpull.util.truncate_file(file.name)\n",
+      "                while not session.done():\n                    if session.next_request().url_info.hostname != url_info.hostname:\n                        break\n\n                    wpull.util.truncate_file(file.name)\n", 'wpull/protocol/http/robots.py'),
 ]
 
 ENTRIES += [
